@@ -414,6 +414,9 @@ class DiffRHS(object):
         or a pytorch jacrev functional transform        
         """
         self.__jac = None
+        self.__jac_initialised = False
+        self.__jac_is_wrapped_rhs = False
+        self.__jac_time = None
 
     def set_jac_base_order(self, order):
         if self.__jac_is_wrapped_rhs:
